@@ -314,7 +314,7 @@ def run_enumeration(ctx):
 TG = G.TermGen(LEAVES[:17] + [CHAIN_ITEM, CHAIN_ATTR, CHAIN_EXPR, ["item", DROOT, K0]], [S0], {k: E.loc("F", ("i", k)) for k in ("add2", "scale", "sq", "hyp")},
                [(LC, I0), (N0, K0)], lits=G.numbers(),
                ops=list(E.BINOPS), builtins=["abs", "round", "floor", "ceil", "trunc"], unary=list(E.UNOPS),
-               allow_eq=True, allow_divmod=True)
+               allow_eq=True, allow_divmod=True, proj=True)
 
 
 def run_trees(ctx):
